@@ -28,7 +28,8 @@ tier = sys.argv[1] if len(sys.argv) > 1 else 'quick'
 seed = int(sys.argv[2]) if len(sys.argv) > 2 else 0
 QUICK = tier != 'thorough'
 NPROC = 16
-CALL_LIMIT = 10.0 if QUICK else 30.0       # seconds for one history() call / one open
+CALL_LIMIT = 4.0 if QUICK else 10.0        # CPU seconds for one history() call / one open (normal: < 0.5)
+WALL_FACTOR = 8                            # ... and CALL_LIMIT * WALL_FACTOR seconds of wall clock (blocking hang)
 T_START = time.time()
 DEADLINE = T_START + (42.0 if QUICK else 700.0)   # no new case is started after this (cases left over are counted)
 HARD_END = T_START + (56.0 if QUICK else 850.0)   # the parent kills whatever still runs
@@ -53,12 +54,15 @@ def _on_alarm(signum, frame):
 
 
 def limited(fn, seconds):
-    """Run fn() under an interval timer; CallTimeout propagates on expiry."""
+    """Run fn() under interval timers (CPU time of this process, and wall clock); CallTimeout on expiry."""
     signal.signal(signal.SIGALRM, _on_alarm)
-    signal.setitimer(signal.ITIMER_REAL, seconds)
+    signal.signal(signal.SIGPROF, _on_alarm)
+    signal.setitimer(signal.ITIMER_PROF, seconds)
+    signal.setitimer(signal.ITIMER_REAL, seconds * WALL_FACTOR)
     try:
         return fn()
     finally:
+        signal.setitimer(signal.ITIMER_PROF, 0)
         signal.setitimer(signal.ITIMER_REAL, 0)
 
 
@@ -298,12 +302,16 @@ class Runner(object):
     def __init__(self, ora, progress):
         self.ora = ora
         self.lst = None
+        self.skip = ()
         self.progress = progress
         self.counts = dict((c, 0) for c in CONTRACTS)
 
-    def reader(self):
+    def reader(self, skip=()):
+        if self.lst is not None and self.skip != skip:
+            self.drop()
         if self.lst is None:
-            self.lst = limited(lambda: t2listing(self.ora.path), CALL_LIMIT)
+            self.skip = skip
+            self.lst = limited(lambda: t2listing(self.ora.path, skip_tables=list(skip)) if skip else t2listing(self.ora.path), CALL_LIMIT)
         return self.lst
 
     def drop(self):
@@ -313,16 +321,24 @@ class Runner(object):
             pass
         self.lst = None
 
-    def call(self, sel, form, short, start, count=True):
+    def call(self, sel, form, short, start, count=True, skip=()):
         """Returns the list of (category, what) violations of one history call."""
         ora = self.ora
         out = []
         def bump(c):
             if count: self.counts[c] += 1
-        self.progress(json.dumps([js(sel), form, short, start]))
-        lst = self.reader()
+        self.progress(('skip=%s ' % json.dumps(list(skip)) if skip else '') + '%s short=%s start=%d' % (json.dumps(js(sel)), short, start))
+        lst = self.reader(skip)
         if lst.index != start:
-            lst.index = start
+            try:
+                limited(lambda: setattr(lst, 'index', start), CALL_LIMIT)
+            except CallTimeout:
+                raise
+            except Exception as e:
+                tb = traceback.extract_tb(sys.exc_info()[2])[-1]
+                self.drop()
+                return [('position-exception', 'cannot position the reader: index = %d raises %s: %s (%s:%d)' %
+                         (start, type(e).__name__, e, os.path.basename(tb.filename), tb.lineno))]
         before = snapshot(lst)
         arg = sel[0] if form == 'tuple' else list(sel)
         bump('terminates')
@@ -330,7 +346,7 @@ class Runner(object):
             res = limited(lambda: lst.history(arg, short=short), CALL_LIMIT)
         except CallTimeout:
             self.drop()
-            return [('timeout', 'history() still running after %g s' % CALL_LIMIT)]
+            return [('timeout', 'history() still running after %g s of CPU time' % CALL_LIMIT)]
         except Exception as e:
             tb = traceback.extract_tb(sys.exc_info()[2])[-1]
             self.drop()
@@ -365,7 +381,7 @@ class Runner(object):
             ok, detail = same_snapshot(before, after)
             if not ok:
                 out.append(('restore', 'after history(): ' + detail))
-            fresh = (start, ora.T[start], ora.S[start], {t: ora.data[t][start] for t in ora.tables})
+            fresh = (start, ora.T[start], ora.S[start], {t: ora.data[t][start] for t in ora.tables if t not in skip})
             ok, detail = same_snapshot(fresh, after)
             if not ok and not any(c == 'restore' for c, _ in out):
                 out.append(('restore-vs-fresh', 'after history() the reader differs from a fresh one at index %d: %s' % (start, detail)))
@@ -489,9 +505,34 @@ def gen_cases(ora, rnd):
     return cases
 
 
+def gen_skip_cases(ora, rnd):
+    """Part E: the reader is opened with skip_tables; ordered subsets of the tables it still has."""
+    tables, n = ora.tables, ora.n
+    if len(tables) < 2:
+        return []
+    skips = [(t,) for t in tables]
+    if len(tables) > 2:
+        pairs = list(itertools.combinations(tables, 2))
+        skips += pairs if not QUICK else pairs[seed % 3::3]
+    cases = []
+    for skip in skips:
+        rest = [t for t in tables if t not in skip]
+        kmax = len(rest) if not QUICK else 2
+        for io, order in enumerate(p for k in range(1, kmax + 1) for sub in itertools.combinations(rest, k) for p in itertools.permutations(sub)):
+            sel = []
+            for it, t in enumerate(order):
+                nr = len(ora.rows[t])
+                r = [0, nr - 1, nr // 2][(io + it) % 3]
+                key = ora.rows[t][r] if (io + it) % 2 == 0 else r
+                sel.append((TSPEC[t], key, ora.cols[t][(io + it) % len(ora.cols[t])]))
+            cases.append(('E', sel, 'list', True, (io * 7 + len(skip)) % n, skip))
+    return cases
+
+
 # ---------------------------------------------------------------- one job = one slice of one file
 def run_job(job, conn, progfile):
-    rel, chunk, nchunks = job
+    rel, chunk, nchunks = job[:3]
+    skipjob = chunk < 0
     t0 = time.time()
     out = {'rel': rel, 'counts': dict((c, 0) for c in CONTRACTS), 'distinct': 0, 'failures': [], 'nfailures': 0,
            'samples': [], 'skipped': 0, 'cases': 0}
@@ -518,28 +559,33 @@ def run_job(job, conn, progfile):
         if ora.parse_problem and chunk == 0:
             fail('parse-disagree', '', ora.parse_problem, {'file': rel})
         rnd = random.Random('%d %s' % (seed, rel))
-        cases = gen_cases(ora, rnd)[chunk::nchunks]
+        cases = [c + ((),) for c in gen_cases(ora, rnd)[chunk::nchunks]] if not skipjob else gen_skip_cases(ora, rnd)
+        ntimeouts = {}
         run = Runner(ora, progress)
         seen = set()
         nshrunk = 0
-        for (part, sel, form, short, start) in cases:
-            if time.time() > DEADLINE:
-                out['skipped'] += 1
+        for (part, sel, form, short, start, skip) in cases:
+            if time.time() > DEADLINE or ntimeouts.get(skip, 0) >= (2 if QUICK else 6):
+                out['skipped'] += 1          # out of time, or this reader configuration has hung often enough
                 continue
             sel = [it for it in sel if ora.resolve(it) is not None]
             if not sel:
                 continue
-            desc = '%s short=%s start=%d%s' % (json.dumps(js(sel)), short, start, ' tuple' if form == 'tuple' else '')
+            pre = 'skip=%s ' % json.dumps(list(skip)) if skip else ''
+            desc = pre + '%s short=%s start=%d%s' % (json.dumps(js(sel)), short, start, ' tuple' if form == 'tuple' else '')
             if desc in seen:
                 continue
             seen.add(desc)
             out['cases'] += 1
             try:
-                viol = run.call(sel, form, short, start)
+                viol = run.call(sel, form, short, start, skip=skip)
             except CallTimeout:
                 run.drop()
-                viol = [('timeout', 'opening / positioning the reader still running after %g s' % CALL_LIMIT)]
-            if viol and len(sel) > 1 and nshrunk < 12:      # shrink to a smallest failing selection
+                viol = [('timeout', 'opening / positioning the reader still running after %g s of CPU time' % CALL_LIMIT)]
+            if any(c == 'timeout' for c, _ in viol):
+                ntimeouts[skip] = ntimeouts.get(skip, 0) + 1
+            hung = any(c == 'timeout' for c, _ in viol)
+            if viol and len(sel) > 1 and nshrunk < 12 and not (hung and (len(sel) > 2 or ntimeouts.get(skip, 0) > 1)):      # shrink to a smallest failing selection
                 nshrunk += 1
                 cats = set(c for c, _ in viol)
                 cur = list(sel)
@@ -549,18 +595,19 @@ def run_job(job, conn, progfile):
                     for i in range(len(cur)):
                         cand = cur[:i] + cur[i + 1:]
                         try:
-                            v2 = run.call(cand, 'list', short, start, count=False)
+                            v2 = run.call(cand, 'list', short, start, count=False, skip=skip)
                         except CallTimeout:
                             run.drop(); v2 = [('timeout', '')]
                         if cats & set(c for c, _ in v2):
                             cur, viol, changed = cand, [x for x in v2 if x[0] in cats], True
                             break
                 sel = cur
-                desc = '%s short=%s start=%d' % (json.dumps(js(sel)), short, start)
+                desc = pre + '%s short=%s start=%d' % (json.dumps(js(sel)), short, start)
             for cat, what in viol:
-                fail(cat, desc, what, {'file': rel, 'selection': js(sel), 'short': short, 'start_index': start, 'form': form,
-                                       'python': "l = t2listing(%r); l.index = %d; l.history(%s, short=%s)" %
-                                                 ('tests/listing/' + rel, start, repr(sel[0] if form == 'tuple' else sel), short)})
+                fail(cat, desc, what, {'file': rel, 'selection': js(sel), 'short': short, 'start_index': start, 'form': form, 'skip_tables': list(skip),
+                                       'python': "l = t2listing(%r%s); l.index = %d; l.history(%s, short=%s)" %
+                                                 ('tests/listing/' + rel, ', skip_tables=%r' % (list(skip),) if skip else '', start,
+                                                  repr(sel[0] if form == 'tuple' else sel), short)})
             if len(out['samples']) < 1 and part == 'A' and len(sel) > 1 and not viol:
                 w = ora.series(sel[0], short)
                 out['samples'].append({'file': rel, 'selection': js(sel), 'short': short, 'start': start,
@@ -630,8 +677,9 @@ def main():
             plus = rel.startswith('TOUGHplus')             # 5 tables: 325 ordered subsets
             k = max(4 if plus else 1, size // 220000) if QUICK else max(4, size // 50000) * (2 if plus else 1)
             jobs += [(rel, c, k) for c in range(k)]
-        # the heaviest first
-        jobs.sort(key=lambda j: (-(os.path.getsize(os.path.join(LISTDIR, j[0])) * (5 if j[0].startswith('TOUGHplus') else 1)), j))
+            jobs.append((rel, -1, 1))                      # readers opened with skip_tables: one job per file
+        # round robin over the files, the heaviest first
+        jobs.sort(key=lambda j: (max(j[1], 0), -(os.path.getsize(os.path.join(LISTDIR, j[0])) * (5 if j[0].startswith('TOUGHplus') else 1)), j))
         res = run_jobs(jobs, tmp)
     finally:
         shutil.rmtree(tmp, ignore_errors=True)
